@@ -79,3 +79,24 @@ Example C02_history_instance :
   c02_rows c02_ops1 = Some [Some ((3, 1), [640; 641]); Some ((259, 1), [1280; 1281]); Some ((515, 1), [1920; 1921])]%N /\
   c02_rows (c02_ops1 ++ c02_ops2) = Some [Some ((515, 1), [1920; 1921]); Some ((259, 1), [1280; 1281]); Some ((771, 1), [3200; 3201])]%N.
 Proof. vm_compute. repeat split; reflexivity. Qed.
+
+(* ---------------------------------------------------------------- destroy, as observed *)
+From Gecs Require Import ExtrBits ExtrVersion ObsFacts.
+Local Open Scope nat_scope.
+
+(** The destroy operation of the run language (through one archetype, dynamically typed handle carrying
+    its id, no armed Drop fault), in any reachable state: for a stored handle below the generation
+    limits the observation hands back exactly that entity's current row and the archetype moves to
+    [destroyed_state] (every other row kept, C02_destroy above); for a handle that is not stored it
+    reports absence and nothing changes.  The same closed form for the lookups is C01_probe_observation_*. *)
+Theorem C02_destroy_observation : forall cfg d qs st w r e b bd s, RInv d st ->
+  cur_world st = Some w -> get_href st KEnt r = Some e -> snd e <> 0%N -> key32 e ->
+  wd_archs d !! b = Some bd -> w !! b = Some s -> da_id bd = key_arch_id (fst e) -> eslot e < cap s -> drop_in st = 0%N ->
+  match list_find (fun x => x = e) (ents s) with
+  | Some (dd, _) => forall va vs', arch_next (wrapping cfg) (version s) = Some va -> slot_next (wrapping cfg) (snd e) = Some vs' ->
+      step cfg d qs st (ODestroy (LArch b) KEnt TAny r) =
+        Some (set_drop_in (set_world st (upd w b (destroyed_state cfg s (eslot e) dd e (last_ent s e) va vs'))) 0%N,
+              1%N :: default [] (snd <$> abs_at s dd))
+  | None => step cfg d qs st (ODestroy (LArch b) KEnt TAny r) = Some (st, [0%N])
+  end.
+Proof. exact step_destroy_any_arch. Qed.
